@@ -210,35 +210,23 @@ func vC04(s vSeqSpec) {
 
 // sibling order: interleaved equal and different names, text alone or before children
 func H_C04_seq() {
-	s := vSeqSpec{depth: 1, maxKids: 3, maxAttrs: 0, nameAlpha: "ab", text: true}
-	if vTier() == 1 {
-		s = vSeqSpec{depth: 1, maxKids: 4, maxAttrs: 1, nameAlpha: "ab", text: true, extras: true}
-	}
+	s := vSeqSpec{depth: 1, maxKids: vP("kids", 3, 4), maxAttrs: vP("attrs", 0, 1), nameAlpha: "ab", text: true, extras: vP("extras", 0, 1) == 1}
 	vC04(s)
 }
 
 func H_C04_seq_nested() {
-	s := vSeqSpec{depth: 2, maxKids: 2, maxAttrs: 0, nameAlpha: "ab", text: true}
-	if vTier() == 1 {
-		s = vSeqSpec{depth: 3, maxKids: 2, maxAttrs: 1, nameAlpha: "ab", text: true}
-	}
+	s := vSeqSpec{depth: vP("depth", 2, 3), maxKids: vP("kids", 2, 2), maxAttrs: vP("attrs", 0, 1), nameAlpha: "ab", text: true}
 	vC04(s)
 }
 
 // attributes in order, namespace prefixes, xmlns attributes
 func H_C04_seq_attrs() {
-	s := vSeqSpec{depth: 1, maxKids: 1, maxAttrs: 2, nameAlpha: "ab", prefixes: true}
-	if vTier() == 1 {
-		s = vSeqSpec{depth: 1, maxKids: 2, maxAttrs: 3, nameAlpha: "ab", prefixes: true, text: true}
-	}
+	s := vSeqSpec{depth: 1, maxKids: vP("kids", 1, 2), maxAttrs: vP("attrs", 2, 3), nameAlpha: "ab", prefixes: true, text: vP("text", 0, 1) == 1}
 	vC04(s)
 }
 
 // comments, processing instructions and directives at every position among the children
 func H_C04_seq_extras() {
-	s := vSeqSpec{depth: 1, maxKids: 2, maxAttrs: 0, nameAlpha: "ab", extras: true, text: true}
-	if vTier() == 1 {
-		s = vSeqSpec{depth: 2, maxKids: 2, maxAttrs: 1, nameAlpha: "ab", extras: true, text: true}
-	}
+	s := vSeqSpec{depth: vP("depth", 1, 2), maxKids: vP("kids", 2, 2), maxAttrs: vP("attrs", 0, 1), nameAlpha: "ab", extras: true, text: true}
 	vC04(s)
 }
